@@ -78,6 +78,33 @@ theorem layerB_pointer_self_reference (E : Elem α) (i j k c : Nat) :
     Refines (fun s => remove E s i c) (fun l : List α => if i + c > l.length then l else remAt l i c) :=
   ⟨refines_appown E j k, refines_copyown E j k, refines_remx E i c⟩
 
+/-! The third conjunct above is a statement over the naturals: the model's `remove` tests `i + cnt > m` in `Nat`, so by
+itself it cannot tell the code before 0854fc0 (`if (i + n > m)`, whose `int` sum wraps for `n` near `INT_MAX`) from the
+code after it (`if (n > m - i)`).  The two lemmas below are the bridge to the 32-bit expressions the code evaluates;
+on real `int`s only the K op `remx` (counts up to 2147483647, under UBSan/ASan) exercises them. -/
+
+/-- two's-complement wrap of a mathematical integer into a 32-bit `int` -/
+def wrap32 (x : Int) : Int := (x + 2147483648) % 4294967296 - 2147483648
+
+/-- the range test of `remove` after 0854fc0, `n > m - i` evaluated in 32-bit `int`s, never wraps for non-negative
+`int` arguments and decides exactly the model's test `i + n > m` -/
+theorem remove_guard_no_wrap (m i n : Nat) (hm : m < 2147483648) (hi : i < 2147483648) (_hn : n < 2147483648) :
+    decide ((n : Int) > wrap32 ((m : Int) - (i : Int))) = decide (i + n > m) := by
+  unfold wrap32
+  have h2 : ((m : Int) - i + 2147483648) % 4294967296 = (m : Int) - i + 2147483648 := by omega
+  rw [h2]
+  by_cases h : i + n > m <;> simp [h] <;> omega
+
+/-- the test before 0854fc0, `i + n > m` with the sum in 32-bit `int`s, does NOT decide the model's test:
+`a.remove(1, INT_MAX)` on three elements -/
+theorem remove_guard_prefix_counterexample :
+    ¬ (∀ m i n : Nat, m < 2147483648 → i < 2147483648 → n < 2147483648 →
+        decide (wrap32 ((i : Int) + (n : Int)) > (m : Int)) = decide (i + n > m)) := by
+  intro h
+  have := h 3 1 2147483647 (by decide) (by decide) (by decide)
+  revert this
+  decide
+
 /-- the hypotheses of `layerB_refines` are satisfiable: a block at capacity (the growth path of `insert`) -/
 example : Rep (⟨[some 1, some 2, some 3], 3, 1, 3, false⟩ : BS Nat) [1, 2, 3] 0 := ⟨rfl, rfl, by decide⟩
 
